@@ -383,8 +383,9 @@ template<int... n> static constexpr std::array<std::array<int, IC_N + 2>, sizeof
 
 static std::string do_ic(const std::vector<std::string>& t)
 {
-  static constexpr auto ft = icfact_table(std::make_integer_sequence<int, IC_N>{});
-  static constexpr auto Ft = Factorial_table(std::make_integer_sequence<int, IC_N>{});
+  // n = 0..11 only: the table is evaluated at compile time, and an off-by-one in factorial must stay a run-time observation (12! fits an int, 13! does not)
+  static constexpr auto ft = icfact_table(std::make_integer_sequence<int, IC_N - 1>{});
+  static constexpr auto Ft = Factorial_table(std::make_integer_sequence<int, IC_N - 1>{});
   static constexpr auto bt = icbinom_table(std::make_integer_sequence<int, IC_N + 2>{});
   if (t[0] == "icfact") { int n = std::stoi(t[1]); return std::to_string(ft[n]) + " " + std::to_string(Ft[n]); }
   int n = std::stoi(t[1]), k = std::stoi(t[2]);
